@@ -172,6 +172,19 @@ def writer_item_loop(ctx: Ctx, fq: str, notes_exempt: bool) -> None:
     kvar, vvar = ast.Name(id=kname, ctx=ast.Load()), ast.Name(id=vname, ctx=ast.Load())
     forms = {"keyonly": 0, "split": 0, "plain": 0}
     pcalls = [c for c in calls(fi) if is_msdparam(ctx, fi, c) and in_body(loop, c)]
+    # what is written must be built by MSDParameter (which escapes every component), never by hand
+    fparam_ = fi.param_names()[1] if len(fi.param_names()) > 1 else "file"
+    handmade = 0
+    for w in method_calls(fi, "write"):
+        if not (in_body(loop, w) and isinstance(w.func.value, ast.Name) and w.func.value.id == fparam_ and len(w.args) == 1):
+            continue
+        for k_, x in (string_parts(w.args[0]) or []):
+            if k_ == "expr" and isinstance(x, ast.Name):
+                for b in locals_of(fi).b.get(x.id, []):
+                    if b.kind == "assign" and b.value is not None and in_body(loop, b.node) and not any(isinstance(n, ast.Call) and n in pcalls for n in ast.walk(b.value)):
+                        handmade += 1
+                        ctx.bad("R-WS", fi, f"parameter text for the item is built by MSDParameter", f"{x.id} = {src(b.value)} under {unparse_facts(facts(ctx, fi, b.node))}: "
+                                "the text is assembled by hand, so '\\', ';' and '//' inside the value are not escaped", node=b.node)
     for c in pcalls:
         elts = param_elts(fi, c)
         fs = facts(ctx, fi, c)
@@ -208,8 +221,12 @@ def writer_item_loop(ctx: Ctx, fq: str, notes_exempt: bool) -> None:
                        f"{vname} reaches MSDParameter possibly None (key-only parameter)", node=c)
             continue
         raise AnalysisError(f"{fq}: MSDParameter components have an unrecognised shape: {src(c)}")
-    ctx.floor(f"{fi.qualname} split form", forms["split"], 1)
-    ctx.floor(f"{fi.qualname} plain form", forms["plain"], 1)
+    ctx.expect("R-TABLE", fi, "multi-value items are written as separate components", forms["split"] >= 1 or handmade > 0, f"{forms['split']} split form(s)",
+               "no (key, *value.split(':')) construction in the item loop: ATTACKS/DISPLAYBPM would be escaped into one component", node=loop)
+    ctx.expect("R-TABLE", fi, "ordinary items are written as one escaped component", forms["plain"] >= 1 or handmade > 0, f"{forms['plain']} plain form(s)",
+               "no (key, value) construction in the item loop", node=loop)
+    if not pcalls:
+        raise AnalysisError(f"{fq}: no MSDParameter construction in the item loop")
     # every iteration writes a parameter built in this iteration
     wnodes = _param_write_nodes(ctx, fi, loop, pcalls)
     exempt: List[int] = []
@@ -405,6 +422,8 @@ def ssc_notes_item(ctx: Ctx) -> None:
             form = "in-loop"
         else:
             raise AnalysisError(f"{SSCCHART_SERIALIZE}: binding of {nk} has an unrecognised shape")
+    if form is None and consts:
+        form = "preselected"
     for cont in skip_conts:
         fs = facts(ctx, fi, cont)
         by_key = False
@@ -468,6 +487,42 @@ def ssc_notes_item(ctx: Ctx) -> None:
             ng = False
         ctx.expect("R-NULL", fi, "notes value is not None where it is serialized", ng, unparse_facts(fs),
                    f"{src(raw)} (a mapping lookup, None for '#NOTES;') reaches MSDParameter unguarded", node=c)
+
+
+def ssc_skip_is_what_is_written_last(ctx: Ctx) -> None:
+    """C18.5: the item loop skips exactly the item that is written after the loop - no other key is left out of the text."""
+    p = ctx.p
+    fi = p.func(SSCCHART_SERIALIZE)
+    loop = one(items_loops(fi), f"item loop in {SSCCHART_SERIALIZE}")
+    kname = loop.target.elts[0].id
+    pcalls = [c for c in calls(fi) if is_msdparam(ctx, fi, c) and not in_body(loop, c)]
+    written = set()
+    for c in pcalls:
+        raw = c.args[0]
+        if isinstance(raw, (ast.Tuple, ast.List)) and raw.elts and isinstance(raw.elts[0], ast.Name):
+            written.add(raw.elts[0].id)
+    conts = [n for n in walk_body(loop) if isinstance(n, ast.Continue)]
+    for cont in conts:
+        fs = facts(ctx, fi, cont)
+        exact = False
+        for atom, pol in fs:
+            if pol and isinstance(atom, ast.Compare) and len(atom.ops) == 1 and isinstance(atom.ops[0], ast.Eq):
+                names = {getattr(atom.left, "id", None), getattr(atom.comparators[0], "id", None)}
+                if kname in names and (names - {kname}) <= written and len(names) == 2:
+                    exact = True
+        # in-loop selection: the skipped key itself becomes the key written last
+        for b in locals_of(fi).b.get(next(iter(written), ""), []):
+            if b.kind == "assign" and isinstance(b.value, ast.Name) and b.value.id == kname and in_body(loop, b.node):
+                if any(same_branch(fi, b.node, cont) for _ in [0]):
+                    exact = True
+        ctx.expect("R-TABLE", fi, "the only item skipped in the loop is the one written after it", exact and len(fs) == 1, unparse_facts(fs),
+                   f"items are skipped under {unparse_facts(fs)} but only '{sorted(written)}' is written after the loop: a chart holding both NOTES and NOTES2 loses one of them in the text", node=cont)
+    ctx.floor("skips in the SSC chart item loop", len(conts), 1)
+
+
+def same_branch(fi: FunctionInfo, a: ast.AST, b: ast.AST) -> bool:
+    pa, pb = parent(fi, a), parent(fi, b)
+    return pa is pb
 
 
 def _notes_value_names(fi: FunctionInfo, nk: str, sn: str) -> List[str]:
@@ -946,7 +1001,7 @@ def null_sweep(ctx: Ctx) -> None:
                         and par.elts and par.elts[0] is not node:
                     n += 1
                     ctx.bad("R-NULL", fi, f"{src(node)} as MSDParameter component", "a mapping lookup (None for a key-only parameter) reaches MSDParameter unguarded", node=node)
-    ctx.floor("nullable string sinks in serializers", n, 5)
+    ctx.floor("nullable string sinks in serializers", n, 3)
 
 
 def _truthy(fs, var: ast.expr) -> bool:
